@@ -24,7 +24,7 @@ ASSUMPTIONS = [
     "the I/O image of the reference target reserves 256 words per slot; other files are arrays of fixed-size elements",
 ]
 FLOORS = {"quick": {"bit": 2000, "bfile": 4000, "count": 50, "tc": 50, "reject": 1000, "write": 2000},
-          "thorough": {"bit": 50000, "bfile": 100000, "count": 20000, "reject": 20000}}
+          "thorough": {"bit": 40000, "bfile": 40000, "count": 15000, "reject": 15000}}
 
 CT = {"PRE": ("word", 1), "ACC": ("word", 2), "EN": ("bit", 15), "TT": ("bit", 14), "DN": ("bit", 13), "CU": ("bit", 15), "CD": ("bit", 14),
       "OV": ("bit", 12), "UN": ("bit", 11), "UA": ("bit", 10)}
